@@ -269,9 +269,101 @@ def _fork_case(kind, order, actions):
     return bad
 
 
+def _tls_burst(kind):
+    """A real TLS context; good plaintext and TLS clients next to one that starts a handshake
+    (first byte 0x16) and then sends junk.  Everybody else is answered, the broken worker ends,
+    nothing is left in the child table, the listener is still the only acceptor."""
+    import ssl
+    import threading
+
+    import pygopherd.server as S
+
+    root = rig.fresh_dir("c14t")
+    rig.build_tree(root, _spec())
+    config = rig.make_config(root, handlers="default", cachetime=0)
+    rig.init_mime(config)
+    rig.reset_lazies()
+    ctx = ssl.create_default_context(ssl.Purpose.CLIENT_AUTH)
+    ctx.load_cert_chain(os.path.join(rig.REPO, "testdata", "demo.crt"), os.path.join(rig.REPO, "testdata", "demo.key"))
+    cls = S.ForkingTCPServer if kind == "fork" else S.ThreadingTCPServer
+    server = cls(config, ("127.0.0.1", 0), S.GopherRequestHandler, context=ctx)
+    server.socket.settimeout(5)
+    if kind == "thread":
+        server.daemon_threads = True
+    bad = []
+    try:
+        def accept():
+            t = threading.Thread(target=server.handle_request, daemon=True)
+            t.start()
+            t.join(5)
+            return not t.is_alive()
+
+        def talk(s, data):
+            s.sendall(data)
+            buf = b""
+            try:
+                while True:
+                    ch = s.recv(65536)
+                    if not ch:
+                        break
+                    buf += ch
+            except (OSError, ssl.SSLError):
+                pass
+            return buf
+
+        for step in ("bogus", "plain", "tls", "bogus", "plain"):
+            s = socket.create_connection(server.server_address, timeout=10)
+            if not accept():
+                bad.append(("accept-loop-blocked", "accept loop stuck at the %s client" % step))
+                break
+            if step == "bogus":
+                talk(s, b"\x16\x03\x01\x00\x05junk!not a client hello\r\n")
+            elif step == "plain":
+                got = talk(s, b"/d/small.txt\r\n")
+                if got != b"small\n":
+                    bad.append(("wrong-answer", "plaintext client next to a broken TLS client got %r" % got[:80]))
+            else:
+                cctx = ssl.SSLContext(ssl.PROTOCOL_TLS_CLIENT)
+                cctx.check_hostname = False
+                cctx.verify_mode = ssl.CERT_NONE
+                ss = cctx.wrap_socket(s)
+                got = talk(ss, b"/d/small.txt\r\n")
+                s = ss
+                if got != b"small\n":
+                    bad.append(("wrong-answer", "TLS client next to a broken TLS client got %r" % got[:80]))
+            s.close()
+        if kind == "fork":
+            deadline = time.time() + 5
+            while time.time() < deadline:
+                server.service_actions()
+                if not server.active_children:
+                    break
+                time.sleep(0.02)
+            if server.active_children:
+                bad.append(("not-reaped", "after a failed TLS handshake a worker process is still alive: %r" % (server.active_children,)))
+                for pid in list(server.active_children):
+                    try:
+                        os.kill(pid, 9)
+                    except OSError:
+                        pass
+    finally:
+        server.server_close()
+        rig.rmtree(root)
+    return bad
+
+
 def _shard_fork(shard, seed, tier):
     part = core.Partial()
     for kind, order, actions in shard:
+        if order == "tls":
+            bad = _tls_burst(kind)
+            part.evaluations += 1
+            part.transitions += 5
+            part.state("tls-burst", kind)
+            part.outcome("tls-burst", kind, tuple(b[0] for b in bad))
+            for cls, det in bad:
+                part.violation("server|%s|tls-burst|%s" % (kind, cls), det, {"kind": "server", "skind": kind, "order": "tls", "actions": []})
+            continue
         bad = _fork_case(kind, order, actions)
         part.evaluations += 1
         part.transitions += 4 + len(actions)
@@ -285,6 +377,9 @@ def _shard_fork(shard, seed, tier):
 
 def replay(case):
     part = core.Partial()
+    if case["kind"] == "server" and case["order"] == "tls":
+        bad = _tls_burst(case["skind"])
+        return bad[0] if bad else None
     if case["kind"] == "server":
         bad = _fork_case(case["skind"], tuple(case["order"]), tuple(case["actions"]))
         return bad[0] if bad else None
@@ -343,6 +438,7 @@ def run(ck):
                     if ck.tier == "quick" and k not in (0, 1, 4):
                         continue
                     fitems.append((kind, order, actions))
+    fitems += [("fork", "tls", ()), ("thread", "tls", ())]
     ck.pmap(_shard_fork, core.chunks(fitems, core.NPROC))
     ck.notes.append("schedules explored: %d" % p.extra.get("schedules", 0))
     ck.rule = ("all unordered pairs (thorough: also triples over the first 6) of a %d-request menu x {cold start with lazies reset, warm}, every interleaving with <= %d preemptions; scheduling points at cache-file operations, directory enumeration and every traced line "
